@@ -13,7 +13,8 @@ CFG = dict(
     find_bad_from="Check.C13c.find_bad_from",
     go_tags="cl",
     rigs=[dict(test="TestC13", timeout_quick=400, timeout_thorough=2400),
-          dict(test="TestC13Surplus", timeout_quick=200, timeout_thorough=300)],
+          dict(test="TestC13Surplus", timeout_quick=200, timeout_thorough=300),
+          dict(test="TestC13Crash", timeout_quick=300, timeout_thorough=900)],
     reason_text={"1": "the real client's observation differs from every outcome of the Gallina model (Model/Client.v, all orders of internal rules)",
                  "3": "a unary call's result is not what the first delivered envelope carrying its id says",
                  "4": "a stream's messages are not, in order, the bodies of the delivered envelopes carrying its id",
@@ -27,7 +28,7 @@ CFG = dict(
          "unknown id} = 54 symbols. QUICK (9692 lock-step cases): ALL sequences of length 1 (54 x 3 kind pairs x stats on/off = 324) and ALL of "
          "length 2 for EVERY kind pair (54^2 x 3 = 8748), + 500 seeded random sequences of length 3..6, + 120 (thorough 1500) 'then-new-calls' cases: a random sequence of 1..3 envelopes, THEN 1..2 calls (unary / stream) started afterwards, each answered by its own reply with a distinct token or left unanswered. THOROUGH (~68k cases, ~11 min): the "
          "same, + ALL length-3 sequences addressed to the two calls (36^3 = 46656), each for ONE kind pair chosen by the sequence and the seed (three consecutive seeds give every sequence x every kind pair; all three in one run: 28 min), + 5000 length-4 "
-         "sequences sampled by the seed, + 6000 random of length 3..6. Stats handler installed on every other case; one case in eight has the user action ClientConn.Close() at a seeded position (before any call, between envelopes, before / after the failure; a no-op of the model); each case is closed "
+         "sequences sampled by the seed, + 6000 random of length 3..6. Stats handler installed on every other case; one case in eight has the user action ClientConn.Close() at a seeded position (before any call, between envelopes, before / after the failure; a no-op of the model); caller metadata is a dimension of EVERY open of every lock-step scenario (clientrig.go mdKinds: none, ordinary, grpc-trace-id, grpc-timeout, Grpc-Status, key with a space / upper case / non-ASCII, empty key, value with NUL / control bytes, -bin, pseudo-header, 17 keys; opaque to the model: every open must behave as without it) plus a family of 90 cases: such an open, 0..2 envelopes addressed to its id (also to the id of an open that FAILED: the id it would have been given) that nobody reads, a probe call, Close, more calls, the read failure: no call may hang; TestC13Crash (30 rounds, thorough 120; free-running, GOMAXPROCS 16, no bubble): 100 / 400 unary calls (+ 16 streams in RecvMsg) outstanding on a fresh connection, every request on the wire, then the transport's Read fails: a crash of the process is a failing input attributed to the round, every call must return an error, later calls too; each case is closed "
          "by a read failure followed by RecvMsg / Trailer. The full <= 4 space of the property's quantifier (54^4 x 3 = 2.5e7 lock-step "
          "cases) is beyond any tier; length 3 with unknown ids in the thorough tier (54^3 x 3 = 4.7e5) is left out for time. TestC13Surplus (216 cases, in a bubble, scripted peer): a unary call receives 1..3 replies in ONE burst (the surplus one lands in its "
          "queue between its receive and its unregistration), optionally a stream holds unread messages, THEN 1..3 later calls (unary / "
